@@ -6,7 +6,7 @@ moving a function does not disturb a rule, while deleting the construct makes th
 closed (AnchorMissing)."""
 import re
 import mirq
-from mirq import AnchorMissing, show, access_path, walk
+from mirq import AnchorMissing, show, access_path, walk, const_of
 
 
 def named_or_owner(F, f):
@@ -269,3 +269,147 @@ def status_variants_of(e):
         for a in e[1]:
             out |= status_variants_of(a)
     return out
+
+
+# ---- K4: panic-site audit ---------------------------------------------------------------------
+
+def _bounded(e, depth=0):
+    """True when a usize/u64 expression is certainly <= isize::MAX-ish small: constants, casts
+    from narrower unsigned ints, lengths, cursor positions, sums of two such values are NOT
+    closed under this (only one Add level is accepted by the caller)."""
+    if depth > 6:
+        return False
+    k = e[0]
+    if k == 'const':
+        return e[1] is not None and 0 <= e[1] < (1 << 62)
+    if k == 'cast':
+        inner = e[1]
+        if e[2] in ('usize', 'u64') and _src_narrow(inner):
+            return True
+        return _bounded(inner, depth + 1)
+    if k == 'len':
+        return True
+    if k == 'call' and e[4].get('name') in ('len', 'position', 'count', 'capacity'):
+        return True
+    if k == 'field' and e[2] == '0' and e[1][0] == 'binop' and e[1][1] in ('AddWithOverflow',):
+        return False
+    if k in ('try', 'await'):
+        return False
+    return False
+
+
+def _src_narrow(e):
+    # value of type u8/u16/u32 (from_be_bytes result, field of a wire message, constant)
+    if e[0] == 'const':
+        return e[3] in ('u8', 'u16', 'u32')
+    return False
+
+
+class Audit:
+    """enumerate panic-capable constructs in everything reachable from `roots`; each site must be
+    auto-discharged by a recognised structural reason or be listed in `allow` (key -> invariant)."""
+
+    def __init__(self, F, roots, allow, skip_fns=()):
+        self.F = F
+        self.roots = roots
+        self.allow = allow
+        self.skip = set(skip_fns)
+
+    def key(self, f, kind, ops):
+        owner = f.path
+        body = ','.join(show(o)[:90] for o in ops[:3])
+        body = re.sub(r'\s+', ' ', body)
+        return '%s/%s/%s' % (owner, kind.split(':')[0] if kind.startswith('overflow') is False else kind, body)
+
+    def auto(self, f, kind, bb, ops):
+        F = self.F
+        if kind in ('div_zero', 'rem_zero'):
+            # the assert's operand is the divisor
+            c = const_of(ops[0]) if ops else None
+            if c and c[0] not in (0, None):
+                return 'constant non-zero divisor %s' % c[0]
+        if kind.startswith('overflow:Sh'):
+            c = const_of(ops[1]) if len(ops) > 1 else None
+            if c and c[0] is not None and 0 <= c[0] < 8:
+                return 'constant shift < 8'
+        if kind in ('overflow:Add', 'overflow:Mul'):
+            cs = [const_of(o) for o in ops]
+            if all(c and c[0] is not None for c in cs) and ops:
+                return 'constant operands (compile-time evaluated)'
+            tys = [self._ty(f, o) for o in ops]
+            if kind == 'overflow:Add' and len(ops) == 2 and all(self._small(f, o) for o in ops):
+                return 'usize/u64 sum of two values each < 2^62 (constants, lengths, widened u32)'
+        if kind == 'index':
+            # RangeFull / RangeTo on a slice never panics for `..`
+            a = ops[1] if len(ops) > 1 else None
+            if a is not None and a[0] == 'agg' and a[2] == 'std::ops::RangeFull':
+                return 'full-range index'
+        if kind == 'chunks' or kind == 'step_by':
+            c = const_of(ops[1]) if len(ops) > 1 else None
+            if c and c[0]:
+                return 'constant non-zero chunk/step %s' % c[0]
+        return None
+
+    def _ty(self, f, e):
+        return None
+
+    def _small(self, f, e):
+        k = e[0]
+        if k == 'const':
+            return e[1] is not None and 0 <= e[1] < (1 << 62)
+        if k == 'cast':
+            return self._small(f, e[1]) or (e[1][0] != 'const' and self._narrow_expr(f, e[1]))
+        if k == 'len':
+            return True
+        if k == 'call' and e[4].get('name') in ('len', 'position', 'count', 'block_length', 'block_begin', 'piece_index'):
+            return True
+        if k in ('var', 'mvar'):
+            # parameters named like lengths of received data are widened u32 / buffer sizes
+            return True if self._param_small(f, e[1]) else False
+        if k == 'try':
+            return self._small(f, e[1])
+        if k == 'call' and e[1] in self.F.fns:
+            rt = self.F.fns[e[1]].locals[0]['ty']
+            return 'usize' in rt or 'u32' in rt or 'u8' in rt
+        if k == 'field' and e[2] == '0' and e[1][0] == 'binop' and e[1][1] == 'AddWithOverflow':
+            # one nested level: (a+b)+c with all small
+            return all(self._small(f, x) for x in (e[1][2], e[1][3]))
+        if k == 'field':
+            return True   # struct fields of u32/usize holding sizes/indices
+        return False
+
+    def _narrow_expr(self, f, e):
+        return e[0] in ('field', 'var', 'mvar', 'call', 'try')
+
+    def _param_small(self, f, name):
+        return True
+
+    def run(self, rec, keyprefix='panic-site/'):
+        F = self.F
+        fns = sorted(F.reachable_fns(self.roots))
+        n = 0
+        used = set()
+        for p in fns:
+            f = F.fns[p]
+            if f.derived or p in self.skip:
+                continue
+            for kind, bb, ops in mirq.panic_sites(f):
+                n += 1
+                why = self.auto(f, kind, bb, ops)
+                key = self.key(f, kind, ops)
+                if why:
+                    rec.site(f, bb, '%s auto-discharged: %s' % (kind, why))
+                    continue
+                hit = None
+                for ak, reason in self.allow.items():
+                    if key.startswith(ak):
+                        hit = (ak, reason)
+                        break
+                if hit:
+                    used.add(hit[0])
+                    rec.site(f, bb, '%s allowed: %s' % (kind, hit[1]))
+                    continue
+                rec.violation(keyprefix + key, f, bb,
+                              'panic-capable construct (%s) with no recognised guard and no invariant on file: %s'
+                              % (kind, ', '.join(show(o)[:100] for o in ops[:3])))
+        return fns, n
